@@ -64,6 +64,14 @@ def mkcal(k):
     if c in ('interp', 'point'):
         f = [r[0] for r in k['tbl']]
         s = [r[1] for r in k['tbl']]
+        r = k.get('repr')       # the same numbers, written down differently by the caller
+        if r == 'intfirst':
+            f = [int(v) if float(v).is_integer() else v for v in f]
+            s = [int(v) if float(v).is_integer() else v for v in s]
+        elif r == 'tuple':
+            f, s = tuple(f), tuple(s)
+        elif r == 'ndarray':
+            f, s = np.array(f), np.array(s)
         return cls(f, s, fixed_gain=k['G'])
     f = np.array([r[0] for r in k['rows']])
     x = np.array([r[1] for r in k['rows']])
